@@ -73,8 +73,10 @@ func (m *Model) Layout() {
 				continue
 			}
 			if col > 0 && col+char.Width > m.width {
-				// a wide character doesn't fit in what is left
-				// of this line
+				// the character doesn't fit in what is left of
+				// this line. A full line is wrapped only here,
+				// when more of it follows: a newline after it
+				// ends that line, it doesn't add an empty one
 				m.lines = append(m.lines, l)
 				l = &line{}
 				col = 0
@@ -85,11 +87,6 @@ func (m *Model) Layout() {
 			}
 			l.append(cell)
 			col += char.Width
-			if col >= m.width {
-				m.lines = append(m.lines, l)
-				l = &line{}
-				col = 0
-			}
 		}
 	}
 	if len(l.characters) > 0 {
